@@ -2,6 +2,7 @@
    Statements only; proofs in theories/SolversProofs.v and theories/EnvProofs.v. *)
 From ICG Require Import Prelude Bits Table Bounds GameOps SAKnowledge Shapley Exploit Norms Env EnvProofs SolversProofs Search Greedy GreedyProofs SASound SAMSpec SearchMono.
 From ICG Require Import RegistryTypes gen.Registry gen.RegistryLinkProps.
+From ICG Require Import GreedyInst ScaleProofs.
 
 (* valid actions = positions where the mask is true *)
 Theorem C13_valid : forall e a, In a (sv_valid e) <-> nth_error (ev_mask e) a = Some true.
@@ -115,3 +116,60 @@ Example C13_nontrivial :
   exists e, ev_run e0 [EReset v v] = Some e /\ sv_greedy false e = Some 9%nat /\ sv_greedy true e = Some 1%nat
             /\ sv_largest e = Some 3%nat.
 Proof. eexists. split; [vm_compute; reflexivity|]. vm_compute. auto. Qed.
+
+(* ---------- scale-freeness of the expected-greedy search (theories/ScaleProofs.v) ----------
+   sc_col c l l' : l' is the column l multiplied by c (entry by entry, up to ==);
+   sc_eg_rel c o o' : both searches raise, or both return the SAME sequence and every row of the gap matrix of the
+   second is the row of the first multiplied by c. *)
+
+(* np.argmin: multiplying all candidate values by c > 0 leaves the first minimiser (ties included) unchanged *)
+Theorem C13_argmin_scale_free : forall c xs xs', 0 < c -> sc_col c xs xs' -> eg_argmin xs' = eg_argmin xs.
+Proof. exact sc_argmin. Qed.
+Print Assumptions C13_argmin_scale_free.
+
+(* column level: every gap column multiplied by c > 0 *)
+Theorem C13_expected_greedy_scale_free :
+  forall (c : Q) (value value' : list N -> list Q) (max_steps : nat) (possible : list N),
+    0 < c -> (forall s, sc_col c (value s) (value' s)) ->
+    sc_eg_rel c (eg_run value max_steps possible) (eg_run value' max_steps possible).
+Proof. exact sc_greedy_scale. Qed.
+Print Assumptions C13_expected_greedy_scale_free.
+
+(* game level: every sampled game multiplied by the same c > 0 (sc_vals c v v': v' reads as c * v); any computer, any gap
+   function (factor c, or c*c for the squared l2 norm), any starting knowledge *)
+Theorem C13_expected_greedy_scale_free_games :
+  forall c comp g n games games' kn max_steps possible,
+    0 < c -> Forall2 (sc_vals c) games games' ->
+    sc_eg_rel (sc_gfac g c) (eg_search comp g n games kn max_steps possible)
+                            (eg_search comp g n games' kn max_steps possible).
+Proof. exact sc_eg_search_scale. Qed.
+Print Assumptions C13_expected_greedy_scale_free_games.
+
+(* the reported mean-gap curve is multiplied by the factor *)
+Theorem C13_expected_greedy_scale_free_curve :
+  forall c o o', sc_eg_rel c o o' ->
+    match o, o' with
+    | Some (s, rows), Some (s', rows') => s' = s /\ sc_col c (map sr_mean rows) (map sr_mean rows')
+    | None, None => True
+    | _, _ => False
+    end.
+Proof. exact sc_greedy_curve. Qed.
+Print Assumptions C13_expected_greedy_scale_free_curve.
+
+(* two sampled 3-player games and the same games multiplied by 2^-10: both sides of the search *)
+Example C13_scale_free_nontrivial :
+  let c := 1 # 1024 in
+  let v := [0; 1; 1; 3; 1; 2; 4; 9] in let w := [0; 2; 1; 3; 2; 5; 3; 10] in
+  let v' := map (Qmult c) v in let w' := map (Qmult c) w in
+  Forall2 (sc_vals c) [v; w] [v'; w']
+  /\ eg_search CCached GExploit 3 [v; w] (sr_minimal 3) 2 [3; 5; 6]%N
+     = Some ([3; 5]%N, [[6; 5]; [4; 10 # 3]; [2; 5 # 3]])
+  /\ eg_search CCached GExploit 3 [v'; w'] (sr_minimal 3) 2 [3; 5; 6]%N
+     = Some ([3; 5]%N, [[3 # 512; 5 # 1024]; [1 # 256; 5 # 1536]; [1 # 512; 5 # 3072]])   (* rows / 2^10, reduced *)
+  /\ eg_search (CSam 2) GL2 3 [v; w] (sr_minimal 3) 1 [3; 5; 6]%N
+     = Some ([3]%N, [[192; 226]; [128; 145]])
+  /\ eg_search (CSam 2) GL2 3 [v'; w'] (sr_minimal 3) 1 [3; 5; 6]%N
+     = Some ([3]%N, [[3 # 16384; 113 # 524288]; [1 # 8192; 145 # 1048576]])   (* rows / 2^20, reduced *).
+Proof.
+  split; [apply (sc_games_map (1 # 1024) [_; _])|]. vm_compute. repeat split; reflexivity.
+Qed.
